@@ -1529,7 +1529,13 @@ class GeoboxTiles:
             if src_footprint.is_empty:
                 # no overlap at all
                 return {}
-            src_footprint = src_footprint.to_crs(self.base.crs)
+            # sides of a raster that is itself in lon/lat are long straight
+            # edges here, add points so that they stay curved after projection
+            bbox = src_footprint.boundingbox
+            step = max(bbox.span_x, bbox.span_y) / 100
+            src_footprint = src_footprint.to_crs(
+                self.base.crs, resolution=step if step > 0 else None
+            )
 
         xy_chunks_with_data = list(self.tiles(src_footprint))
         deps: Dict[Tuple[int, int], List[Tuple[int, int]]] = {}
